@@ -145,12 +145,14 @@ PROPS = {
     ),
     "C04": dict(
         pkg="c04", level="fault_enumeration",
-        tests=[T("TestC04", Q(45, timeout=400, shrinktime="40s"), Q(250, timeout=1500, shards=16, shrinktime="120s"))],
+        tests=[T("TestC04", Q(45, timeout=400, shrinktime="40s"), Q(250, timeout=1500, shards=16, shrinktime="120s")),
+               T("TestC04Big", Q(3, timeout=400, shrinktime="20s"), Q(12, timeout=1500, shards=8, shrinktime="60s"))],
         rule="rapid generates histories of 1-10 steps (apply batches of 1-4 entries biased to multi-key commands: batches, txns, sequences, range deletes; Sync; clean reopen; install of a snapshot "
              "produced by a donor replica that is 0-3 entries ahead, donor format drawn independently) for both recovery types. For each history a dry run counts the mutating file-system operations T "
              "(create, write, sync, rename, remove, mkdir, link incl. pebble's own), then the history is re-executed once per crash point N in 0..T (all of them; thinned evenly above 400): from operation N on "
              "syncs are ignored, after the step everything unsynced is dropped (pebble strict MemFS), the table is reopened and must report an index i >= the last completed Sync/Close, content/leader index == model "
              "after exactly entries 1..i, and re-applying i+1.. must reach the model's final state; with depth 2 a second crash is injected during the re-apply/close phase. evaluations = (history, crash point) executions. "
+             "TestC04Big: one Update call that writes more than a memtable (17+ MiB of plain puts) and then runs multi-key commands reading the batch, so that pebble rotates and flushes on its own inside the call; up to 60 (quick) / 200 (thorough) evenly spread crash points. "
              "A crash point is non-trivial iff it falls inside the first Open, inside an install, or leaves a non-empty unsynced suffix to re-apply; distinct = sha256(case JSON + crash point).",
         assumptions=["fault model = the property's: file data durable up to the file's last sync, directory entries up to the directory's last sync (pebble vfs strict MemFS); torn single writes and media errors are outside it",
                      "an install (RecoverFromSnapshot) is not required to be durable by itself: until the next completed Sync either the pre-install or the installed prefix is accepted (dragonboat's contract)",
